@@ -143,90 +143,8 @@ def run(R):
             "the recursion marker is cleared on every exit of __repr__", "the recursion marker can stay set after __repr__ (every later repr prints <recursion>)",
             rcfg.fmt_path(p) if p else None)
 
-    # ---- FILTER
-    ft = repo.fn("debug.filter_traceback")
-    fcfg = cfg_of(ft)
-    fors = [n for n in q.scope_nodes(ft.node) if isinstance(n, ast.For)]
-    whiles = [n for n in q.scope_nodes(ft.node) if isinstance(n, ast.While)]
-    R.need(len(fors) == 1 and len(whiles) == 2, "idiom: filter_traceback is not while(for(while))")
-    outer = [w for w in whiles if any(fors[0] is x for x in ast.walk(w))][0]
-    inner = [w for w in whiles if w is not outer][0]
-    R.need(isinstance(fors[0].target, ast.Tuple) and len(fors[0].target.elts) == 2, "idiom: pattern loop target")
-    pat, repl = fors[0].target.elts[0].id, fors[0].target.elts[1].id
-    # counters
-    k, s, pos = q.atom_test(outer.test)
-    R.need(k == "lt" and pos and s[1].startswith("len("), "idiom: outer loop condition")
-    iv, lst = s[0], s[1][4:-1]
-    # inner counter j: the name compared with len(pattern)
-    jv = None
-    for n in ast.walk(inner.test):
-        if isinstance(n, ast.Compare) and q.src(n.comparators[0]) == "len(%s)" % pat and isinstance(n.left, ast.Name):
-            jv = n.left.id
-    R.need(jv is not None, "idiom: inner match counter not found")
-    fhead = kit.one(fcfg.nodes_for(fors[0]), "pattern loop header")
-    ihead = [n for n in fcfg.nodes if n.kind == "loop" and n.stmt is inner]
-    R.need(len(ihead) == 1, "idiom: inner loop header")
-    resets = [n for n in fcfg.nodes if n.kind == "stmt" and isinstance(n.ast, ast.Assign) and jv in q.names_stored(n.ast) and q.const_value(n.ast.value) == 0]
-    starts = [e.dst for e in fcfg.out_edges(fhead.id, N) if e.label == "iter"]
-    p = fcfg.find_path(starts, ihead, N, cut_nodes=resets)
-    R.check(p is None and resets, "C18.FILTER", ft.qualname + ":reset", R.site(ft, inner),
-            "the match counter is reset for every pattern that is tried",
-            "the match counter is not reset per pattern: lines matched by an earlier, failed pattern count towards the next one, so an incomplete mixed run is collapsed",
-            fcfg.fmt_path(p) if p else None)
-    flag_resets = [n for n in fcfg.nodes if n.kind == "stmt" and isinstance(n.ast, ast.Assign) and "matches" in q.names_stored(n.ast) and q.const_value(n.ast.value) is True]
-    p = fcfg.find_path(starts, ihead, N, cut_nodes=flag_resets)
-    R.check(p is None and flag_resets, "C18.FILTER", ft.qualname + ":reset-flag", R.site(ft, inner), "the match flag is reset for every pattern", "the match flag is not reset per pattern")
-    # replacement only when the whole pattern matched
-    emits = [n for n, c in kit.call_sites(ft, lambda c: q.attr_call(c)[1] == "append" and repl in q.names_loaded(c))]
-    R.need(len(emits) == 1, "idiom: replacement emission")
-
-    def complete(nd):
-        if nd.kind != "test":
-            return None
-        k2, s2, pos2 = q.atom_test(nd.ast)
-        if k2 == "eq" and set(s2) == set([jv, "len(%s)" % pat]):
-            return "T" if pos2 else "F"
-        return None
-
-    def matched(nd):
-        if nd.kind != "test":
-            return None
-        k2, s2, pos2 = q.atom_test(nd.ast)
-        if k2 == "truth" and s2 == "matches":
-            return "T" if pos2 else "F"
-        return None
-    p1 = kit.path_avoiding_guard(fcfg, emits, complete, N)
-    p2 = kit.path_avoiding_guard(fcfg, emits, matched, N)
-    R.check(p1 is None and p2 is None, "C18.FILTER", ft.qualname + ":complete-run", R.site(ft, emits[0].ast),
-            "a marker is emitted only when every line of the pattern matched (counter == len(pattern) and no mismatch)",
-            "a marker can be emitted for a partial run of boilerplate lines", fcfg.fmt_path(p1 or p2) if (p1 or p2) else None)
-    # the mismatch test compares pattern[j] with line[i + j] by containment and stops at the first mismatch
-    cmpn = [n for n in ast.walk(inner) if isinstance(n, ast.Compare) and isinstance(n.ops[0], (ast.NotIn, ast.In))]
-    okc = len(cmpn) == 1 and q.src(cmpn[0].left) == "%s[%s]" % (pat, jv) and q.src(cmpn[0].comparators[0]) == "%s[%s + %s]" % (lst, iv, jv)
-    R.check(okc, "C18.FILTER", ft.qualname + ":compare", R.site(ft, inner), "pattern line j is looked for in traceback line i + j", "the line comparison is not pattern[j] in tb_list[i + j]")
-    # cursor: advance by j after a replacement, by one otherwise; original line appended unchanged
-    adv = [n for n in fcfg.nodes if n.kind == "stmt" and isinstance(n.ast, (ast.Assign, ast.AugAssign)) and iv in q.names_stored(n.ast) and any(n.ast is x for x in ast.walk(outer))]
-    forms = sorted(q.src(n.ast) for n in adv)
-    R.check(forms in (["%s += 1" % iv, "%s = %s + %s" % (iv, iv, jv)], ["%s += %s" % (iv, jv), "%s += 1" % iv], ["%s += 1" % iv, "%s += %s" % (iv, jv)]), "C18.FILTER", ft.qualname + ":advance", R.site(ft, outer),
-            "the cursor advances by the pattern length after a replacement and by one otherwise", "cursor updates are %s" % forms)
-    copies = [n for n, c in kit.call_sites(ft, lambda c: q.attr_call(c)[1] == "append" and q.src(c.args[0]) == "%s[%s]" % (lst, iv))]
-
-    def replaced(nd):
-        if nd.kind != "test":
-            return None
-        k2, s2, pos2 = q.atom_test(nd.ast)
-        if k2 == "truth" and s2 == "did_replacement":
-            return "F" if pos2 else "T"
-        return None
-    p = kit.path_avoiding_guard(fcfg, copies, replaced, N) if copies else "none"
-    R.check(p is None, "C18.FILTER", ft.qualname + ":copy", R.site(ft, outer), "a line that starts no complete run is copied unchanged",
-            "a line can be copied although it was replaced, or lines are dropped")
-    # the output is what is returned; every pattern list is non-empty
-    rets = [q.src(n.value) for n in q.scope_nodes(ft.node) if isinstance(n, ast.Return)]
-    R.check(rets == ["output"], "C18.FILTER", ft.qualname + ":returns", R.site(ft), "the filtered list is returned", "returns %s" % rets)
-    pats = [n for n in q.scope_nodes(ft.node) if isinstance(n, ast.Assign) and isinstance(n.value, ast.Tuple) and len(n.value.elts) == 2 and isinstance(n.value.elts[0], ast.List)]
-    R.check(len(pats) >= 3 and all(p_.value.elts[0].elts for p_ in pats), "C18.FILTER", ft.qualname + ":patterns", R.site(ft), "every boilerplate pattern is non-empty (%d patterns)" % len(pats),
-            "a boilerplate pattern is empty (it would match everywhere)")
+    # ---- FILTER (roles are found by data flow, not by loop kind)
+    filter_rules(R)
 
     # ---- GLUE
     ae = ro.AsyncTask.methods.get("_accept_error")
@@ -347,3 +265,163 @@ def diag_purity(R, ro, allm, rule):
             R.check(guarded_by_computed(m, c), rule, "%s:%s" % (m.qualname, q.src(c)), R.site(m, c),
                     "%s is evaluated only for a computed future (printing never starts a computation)" % q.src(c),
                     "%s can be evaluated on an uncomputed future: printing it (a debug dump, an error message) runs the computation - a pending batch is flushed by its own __str__" % q.src(c))
+
+
+def filter_rules(R):
+    repo = R.repo
+    ft = repo.fn("debug.filter_traceback")
+    fcfg = cfg_of(ft)
+    lst = q.param_names(ft.node)[0]
+    len_aliases = set(["len(%s)" % lst])
+    for n in q.scope_nodes(ft.node):
+        if isinstance(n, ast.Assign) and q.src(n.value) == "len(%s)" % lst:
+            for t in n.targets:
+                if isinstance(t, ast.Name):
+                    len_aliases.add(t.id)
+    fors = [n for n in q.scope_nodes(ft.node) if isinstance(n, ast.For) and isinstance(n.target, ast.Tuple) and len(n.target.elts) == 2]
+    R.need(len(fors) == 1, "idiom: filter_traceback has no single loop over (pattern, replacement) pairs")
+    pfor = fors[0]
+    pat, repl = pfor.target.elts[0].id, pfor.target.elts[1].id
+    outer = [n for n in q.scope_nodes(ft.node) if isinstance(n, ast.While) and any(pfor is x for x in ast.walk(n))]
+    R.need(len(outer) == 1, "idiom: the pattern loop is not inside one cursor loop")
+    outer = outer[0]
+    k, s_, pos = q.atom_test(outer.test)
+    R.need(k == "lt" and pos and s_[1] in len_aliases, "idiom: unrecognised cursor loop condition `%s`" % q.src(outer.test))
+    iv = s_[0]
+    # counter: compared with len(pattern)
+    jv = None
+    for n in ast.walk(pfor):
+        if isinstance(n, ast.Compare) and len(n.ops) == 1 and isinstance(n.ops[0], (ast.Eq, ast.Lt, ast.GtE, ast.NotEq)):
+            sides = [q.src(n.left), q.src(n.comparators[0])]
+            if "len(%s)" % pat in sides:
+                other = [x for x in sides if x != "len(%s)" % pat][0]
+                if other.isidentifier():
+                    jv = other
+    R.need(jv is not None, "idiom: the match counter compared with len(pattern) was not found")
+    incs = [n for n in fcfg.nodes if n.kind == "stmt" and isinstance(n.ast, ast.AugAssign) and q.src(n.ast.target) == jv and isinstance(n.ast.op, ast.Add) and q.src(n.ast.value) == "1"
+            and any(n.ast is x for x in ast.walk(pfor))]
+    R.need(incs, "idiom: the match counter is never incremented")
+    inner = [n for n in ast.walk(pfor) if isinstance(n, (ast.For, ast.While)) and n is not pfor and any(incs[0].ast is x for x in ast.walk(n))]
+    R.need(len(inner) >= 1, "idiom: the counter is not incremented inside a matching loop")
+    inner = inner[-1]
+    ihead = [n for n in fcfg.nodes if (n.kind == "loop" and n.stmt is inner) or (n.kind == "for" and n.ast is inner)]
+    R.need(len(ihead) == 1, "idiom: matching loop header")
+    phead = kit.one(fcfg.nodes_for(pfor), "pattern loop header")
+    ohead = [n for n in fcfg.nodes if n.kind == "loop" and n.stmt is outer]
+    R.need(len(ohead) == 1, "idiom: cursor loop header")
+    site = R.site(ft, pfor)
+    # (a) counter reset per pattern
+    resets = [n for n in fcfg.nodes if n.kind == "stmt" and isinstance(n.ast, ast.Assign) and jv in q.names_stored(n.ast) and q.const_value(n.ast.value) == 0]
+    starts = [e.dst for e in fcfg.out_edges(phead.id, N) if e.label == "iter"]
+    p = fcfg.find_path(starts, ihead, N, cut_nodes=resets)
+    R.check(p is None and resets, "C18.FILTER", ft.qualname + ":reset", site,
+            "the match counter is reset for every pattern that is tried",
+            "the match counter is not reset per pattern: lines matched by an earlier, failed pattern count towards the next one, so an incomplete mixed run is collapsed",
+            fcfg.fmt_path(p) if p else None)
+    # element of the pattern under comparison
+    elem = set(["%s[%s]" % (pat, jv)])
+    if isinstance(inner, ast.For) and isinstance(inner.target, ast.Name) and q.src(inner.iter) == pat:
+        elem.add(inner.target.id)
+    line = "%s[%s + %s]" % (lst, iv, jv)
+
+    def match_edge(nd):
+        if nd.kind != "test":
+            return None
+        k2, s2, pos2 = q.atom_test(nd.ast)
+        if k2 == "in" and s2[0] in elem and s2[1] == line:
+            return "T" if pos2 else "F"
+        return None
+
+    def in_bounds(nd):
+        if nd.kind != "test":
+            return None
+        k2, s2, pos2 = q.atom_test(nd.ast)
+        if k2 == "lt" and s2[0].strip("()") == "%s + %s" % (iv, jv) and s2[1] in len_aliases:
+            return "T" if pos2 else "F"
+        return None
+    tests = [n for n in fcfg.nodes if match_edge(n) is not None]
+    R.check(len(tests) >= 1, "C18.FILTER", ft.qualname + ":compare", site, "pattern line j is looked for in traceback line i + j",
+            "the line comparison is not <pattern line j> in %s" % line)
+    # (b) the counter advances only over a matching line
+    istarts = [e.dst for e in fcfg.out_edges(ihead[0].id, N)]
+    p = kit.path_avoiding_guard(fcfg, incs, match_edge, N, sources=istarts)
+    R.check(p is None, "C18.FILTER", ft.qualname + ":count-matches", site,
+            "the counter is incremented only after the current pattern line was found in the current traceback line",
+            "the counter can advance over a line that does not match", fcfg.fmt_path(p) if p else None)
+    # (d) the traceback line is read only inside the list
+    p = kit.path_avoiding_guard(fcfg, tests, in_bounds, N, sources=istarts)
+    R.check(p is None, "C18.FILTER", ft.qualname + ":bounds", site, "line i + j is read only when i + j < len(tb_list) (a partial run at the end is not an error)",
+            "line i + j can be read beyond the end of the list", fcfg.fmt_path(p) if p else None)
+    # (c) emission only for a complete run
+    emits = [n for n, c in kit.call_sites(ft, lambda c: q.attr_call(c)[1] == "append" and repl in q.names_loaded(c))]
+    R.need(len(emits) == 1, "idiom: replacement emission")
+
+    def complete(nd):
+        if nd.kind != "test":
+            return None
+        k2, s2, pos2 = q.atom_test(nd.ast)
+        if k2 == "eq" and set(s2) == set([jv, "len(%s)" % pat]):
+            return "T" if pos2 else "F"
+        if k2 == "lt" and s2 == (jv, "len(%s)" % pat):
+            return "F" if pos2 else "T"
+        return None
+    p1 = kit.path_avoiding_guard(fcfg, emits, complete, N)
+    R.check(p1 is None, "C18.FILTER", ft.qualname + ":complete-run", R.site(ft, emits[0].ast),
+            "a marker is emitted only when the counter reached the pattern's length (every line of the run matched)",
+            "a marker can be emitted for a partial run of boilerplate lines", fcfg.fmt_path(p1) if p1 else None)
+    flags = [n for n in fcfg.nodes if n.kind == "test" and q.atom_test(n.ast)[:2] == ("truth", "matches")]
+    if flags:
+        def matched(nd):
+            if nd.kind != "test":
+                return None
+            k2, s2, pos2 = q.atom_test(nd.ast)
+            if k2 == "truth" and s2 == "matches":
+                return "T" if pos2 else "F"
+            return None
+        p2 = kit.path_avoiding_guard(fcfg, emits, matched, N)
+        fl_resets = [n for n in fcfg.nodes if n.kind == "stmt" and isinstance(n.ast, ast.Assign) and "matches" in q.names_stored(n.ast) and q.const_value(n.ast.value) is True]
+        p3 = fcfg.find_path(starts, ihead, N, cut_nodes=fl_resets)
+        R.check(p2 is None and p3 is None, "C18.FILTER", ft.qualname + ":flag", R.site(ft, emits[0].ast),
+                "the mismatch flag guards the emission and is reset per pattern", "the mismatch flag does not guard the emission or is not reset per pattern")
+    # (e) cursor updates
+    adv = [n for n in fcfg.nodes if n.kind == "stmt" and isinstance(n.ast, (ast.Assign, ast.AugAssign)) and iv in q.names_stored(n.ast) and any(n.ast is x for x in ast.walk(outer))]
+    by_run = [n for n in adv if q.src(n.ast) in ("%s = %s + %s" % (iv, iv, jv), "%s += %s" % (iv, jv), "%s = %s + %s" % (iv, jv, iv))]
+    by_one = [n for n in adv if q.src(n.ast) in ("%s += 1" % iv, "%s = %s + 1" % (iv, iv))]
+    R.check(len(by_run) >= 1 and len(by_one) >= 1 and len(by_run) + len(by_one) == len(adv), "C18.FILTER", ft.qualname + ":advance", R.site(ft, outer),
+            "the cursor advances by the run length after a replacement and by one otherwise", "cursor updates are %s" % sorted(q.src(n.ast) for n in adv))
+    copies = [n for n, c in kit.call_sites(ft, lambda c: q.attr_call(c)[1] == "append" and q.src(c.args[0]) == "%s[%s]" % (lst, iv))]
+    R.need(copies, "idiom: unmatched lines are not copied as tb_list[i]")
+    # after an emission: cursor advanced by the run length before the next outer iteration; no copy in the same iteration
+    es = [e.dst for e in fcfg.out_edges(emits[0].id, N)]
+    p = fcfg.find_path(es, ohead, N, cut_nodes=by_run)
+    R.check(p is None, "C18.FILTER", ft.qualname + ":advance-run", R.site(ft, emits[0].ast), "after a replacement the cursor skips the whole run",
+            "after a replacement the cursor can fail to skip the run", fcfg.fmt_path(p) if p else None)
+    bool_flags = set()
+    for n in q.scope_nodes(ft.node):
+        if isinstance(n, ast.Assign) and isinstance(n.value, ast.Constant) and isinstance(n.value.value, bool):
+            for t in n.targets:
+                if isinstance(t, ast.Name):
+                    bool_flags.add(t.id)
+    p = fcfg.find_path_flags(es, copies, bool_flags, N, cut_nodes=ohead)
+    R.check(p is None, "C18.FILTER", ft.qualname + ":no-double", R.site(ft, emits[0].ast), "a replaced line is not copied as well",
+            "a line can be both replaced and copied", fcfg.fmt_path(p) if p else None)
+    for cnode in copies:
+        cs = [e.dst for e in fcfg.out_edges(cnode.id, N)]
+        p = fcfg.find_path(cs, ohead, N, cut_nodes=by_one)
+        R.check(p is None, "C18.FILTER", ft.qualname + ":advance-one", R.site(ft, cnode.ast), "after copying a line the cursor advances by one",
+                "after copying a line the cursor can fail to advance by one", fcfg.fmt_path(p) if p else None)
+    # every iteration of the cursor loop emits or copies (no line is dropped)
+    os_ = [e.dst for e in fcfg.out_edges(ohead[0].id, N)]
+    body_first = [n for n in fcfg.nodes if n.kind == "test" and n.stmt is outer]
+    bs = []
+    for t in body_first:
+        bs += [e.dst for e in fcfg.out_edges(t.id, N) if e.label == "T"]
+    p = fcfg.find_path_flags(bs, ohead, bool_flags, N, cut_nodes=emits + copies)
+    R.check(p is None, "C18.FILTER", ft.qualname + ":copy", R.site(ft, outer), "every line either starts a complete run (marker) or is copied unchanged",
+            "a line can be dropped (an iteration that neither emits a marker nor copies the line)", fcfg.fmt_path(p) if p else None)
+    rets = [q.src(n.value) for n in q.scope_nodes(ft.node) if isinstance(n, ast.Return)]
+    outn = q.dotted(q.attr_call(kit.node_calls(emits[0])[0])[0]) if kit.node_calls(emits[0]) else None
+    R.check(len(rets) == 1 and rets[0] == outn, "C18.FILTER", ft.qualname + ":returns", R.site(ft), "the filtered list is returned", "returns %s" % rets)
+    pats = [n for n in q.scope_nodes(ft.node) if isinstance(n, ast.Assign) and isinstance(n.value, ast.Tuple) and len(n.value.elts) == 2 and isinstance(n.value.elts[0], ast.List)]
+    R.check(len(pats) >= 3 and all(p_.value.elts[0].elts for p_ in pats), "C18.FILTER", ft.qualname + ":patterns", R.site(ft), "every boilerplate pattern is non-empty (%d patterns)" % len(pats),
+            "a boilerplate pattern is empty (it would match everywhere)")
